@@ -37,9 +37,14 @@ def strip_ext(s: str, keep: bool) -> str:
 
 
 @spec
+def with_prefix(prefix: str, sep: str, rel: str) -> str:
+    return prefix + sep + rel
+
+
+@spec
 def page_name(prefix: "opt[str]", sep: str, rel: str, keep: bool) -> str:
     """C12: derived only from the prefix and the relative path; starts with prefix + separator when a prefix applies"""
-    return strip_ext(rel if prefix is None else prefix + sep + rel, keep)
+    return strip_ext(rel if prefix is None else with_prefix(prefix, sep, rel), keep)
 
 
 @spec
@@ -68,6 +73,16 @@ class document_single_file_c:
         return (len(header_chars(settings)) >= 1 and
                 (fs_isdir(root) or not exists(0, len(WORLD.made), lambda i: WORLD.made[i] == root)) and
                 (settings.output.directory is None or settings.output.directory != root or fs_isdir(root)))
+
+    def ensures_ghost_names(file, root, settings, header_name, module_name):
+        """C12: the title and the module name computed for the page (the two names the Documenter is constructed with):
+        prefix + separator + relative path when a prefix applies, the .cmake extension dropped unless the option keeps it.
+        (A relative path that EQUALS the separator string is replaced by the bare prefix - the code's special case.)"""
+        return ((settings.rst.prefix is not None and rel_name(file, root) == settings.rst.module_path_separator) or
+                (header_name == page_name(settings.rst.prefix, settings.rst.module_path_separator, rel_name(file, root),
+                                          settings.rst.file_extensions_in_titles) and
+                 module_name == page_name(settings.rst.prefix, settings.rst.module_path_separator, rel_name(file, root),
+                                          settings.rst.file_extensions_in_modules)))
 
     def ensures_stdout(file, root, settings):
         """no output directory: exactly one print, no file, no directory"""
